@@ -58,6 +58,7 @@ fn err_class(e: &tough::error::Error) -> String {
         E::VerifyRoleMetadata { .. } => "verify-role".into(),
         E::VersionMismatch { .. } => "version".into(),
         E::InvalidPath { .. } => "invalid-path".into(),
+        E::DelegatedRolesNotConsistent { .. } => "duplicate-role".into(),
         other => format!("other:{}", other.to_string().chars().take(50).collect::<String>()),
     }
 }
@@ -197,8 +198,21 @@ async fn main() {
             let incoming = match r.below(6) { 0 => Incoming::UnderSigned, 1 => Incoming::WrongKeys, _ => Incoming::Genuine };
             roles.push(RoleSpec { name: ri, parent, keys, thr, targets, version: r.range(1, 5), incoming });
         }
+        // one role name used twice (same parent or elsewhere in the tree): the last role takes the name of an
+        // earlier, childless one
+        let mut dup_name = false;
+        if nroles >= 2 && r.chance(1, 5) {
+            let childless: Vec<usize> = (0..nroles - 1).filter(|j| !roles.iter().any(|x| x.parent == Some(*j))).collect();
+            if !childless.is_empty() {
+                let j = *r.pick(&childless);
+                roles[nroles - 1].name = roles[j].name;
+                roles[nroles - 1].incoming = Incoming::Genuine;
+                roles[j].incoming = Incoming::Genuine;
+                dup_name = true;
+            }
+        }
         // an update of one role by its holder, incorporated with update_delegated_targets
-        let update: Option<(usize, Incoming)> = if nroles > 0 && r.chance(1, 2) {
+        let update: Option<(usize, Incoming)> = if nroles > 0 && !dup_name && r.chance(1, 2) {
             Some((r.below(nroles as u64) as usize, match r.below(4) { 0 => Incoming::UnderSigned, 1 => Incoming::WrongKeys, 2 => Incoming::Older, _ => Incoming::Genuine }))
         } else { None };
         let owner_short = r.chance(1, 6);      // the owner signs with one key too few
@@ -353,7 +367,7 @@ async fn main() {
             "key_ids": (12..20).map(|i| json!([i, pool.all()[i].id])).collect::<Vec<_>>(),
             "lengths": contents.iter().map(|c| c.len()).collect::<Vec<_>>(),
             "digests": contents.iter().map(|c| hex::encode(sha256(c))).collect::<Vec<_>>()});
-        let class = format!("{}{}{}", match nroles { 0 => "flat", _ => "delegations" }, if update.is_some() { "-update" } else { "" },
+        let class = format!("{}{}{}{}", match nroles { 0 => "flat", _ => "delegations" }, if dup_name { "-dupname" } else { "" }, if update.is_some() { "-update" } else { "" },
             if owner_short || missing_field.is_some() { "-inadequate" } else { "" });
         // ---- phase C: publish the targets, load with a fresh client, download everything
         let mut imp = json!({"steps": steps});
